@@ -9,6 +9,7 @@ same content reaches the parser in another, equally legitimate way:
   unknown-last  unrecognised sections (one with a look-alike title) at the end   (C06)
   by-path       the text written to a file and read with Chart.from_filepath      (C06)
   by-path-bom   the same with a UTF-8 byte-order mark                             (C06)
+  by-path-str   the same, the path handed over as a plain str (README)           (C06)
   after-decoy   a different, valid chart (other resolution, tempo map, tracks, metadata) parsed immediately
                 before in the same process                                        (C17)
   after-failed  a chart that fails to parse immediately before                    (C17)
@@ -51,11 +52,12 @@ WHAT = {
     "unknown-last": "unrecognised sections behind everything",
     "by-path": "read with Chart.from_filepath",
     "by-path-bom": "read with Chart.from_filepath from a file with a byte-order mark",
+    "by-path-str": "read with Chart.from_filepath, the path given as a str (the README's spelling)",
     "after-decoy": "a different valid chart parsed immediately before in the same process",
     "after-failed": "a chart that fails to parse parsed immediately before in the same process",
     "twice": "the same text parsed immediately before in the same process",
 }
-NAMES = ("crlf", "unknown-first", "unknown-last", "by-path", "by-path-bom", "after-decoy", "after-failed", "twice")
+NAMES = ("crlf", "unknown-first", "unknown-last", "by-path", "by-path-bom", "by-path-str", "after-decoy", "after-failed", "twice")
 
 
 def enable(stride):
@@ -75,6 +77,8 @@ def transformed(name, text):
         return (text, "path", None)
     if name == "by-path-bom":
         return (text, "path-bom", None)
+    if name == "by-path-str":
+        return (text, "path-str", None)
     if name == "after-decoy":
         return (text, "file", DECOY)
     if name == "after-failed":
@@ -94,7 +98,7 @@ def parse_mode(text, mode, kw):
             f.write((b"\xef\xbb\xbf" if mode == "path-bom" else b"") + text.encode("utf-8"))
         from pathlib import Path
 
-        return Chart.from_filepath(Path(path), **kw)
+        return Chart.from_filepath(path if mode == "path-str" else Path(path), **kw)
     finally:
         os.unlink(path)
 
@@ -133,7 +137,7 @@ try:
         with os.fdopen(fd, "wb") as f:
             f.write((b"\\xef\\xbb\\xbf" if mode == "path-bom" else b"") + text.encode("utf-8"))
         try:
-            c = Chart.from_filepath(Path(path), **kwargs)
+            c = Chart.from_filepath(path if mode == "path-str" else Path(path), **kwargs)
         finally:
             os.unlink(path)
     got = probe(c)
